@@ -193,6 +193,22 @@ Definition sched_step (h : handler) (ss : list session) (acc : world * list ev) 
 Definition run (h : handler) (ss : list session) (ops : list op) : world * list ev :=
   fold_left (sched_step h ss) ops (init_world h ss, []).
 
+(* ---------------------------------------------------------------- in front of the throttled conn *)
+(* layer4.Connection.Read outside matching mode.  Handle swaps cx.Conn for the throttledConn in
+   place, so the bytes cx holds already (prefetched by matchers, not yet consumed) stay in front:
+   a Read hands out buffered bytes first, without touching cx.Conn, and only when the buffer is
+   empty goes to cx.Conn.  inl n: n bytes served from the buffer; inr l: Read(p) with len p = l
+   passed on to the throttledConn. *)
+Fixpoint cx_plan (buffered : Z) (lens : list Z) : list (Z + Z) :=
+  match lens with
+  | [] => []
+  | l :: r =>
+      if 0 <? buffered then let n := zmin l buffered in inl n :: cx_plan (buffered - n) r
+      else inr l :: cx_plan buffered r
+  end.
+Definition from_buffer (plan : list (Z + Z)) : Z :=
+  fold_right (fun x a => match x with inl n => n + a | inr _ => a end) 0 plan.
+
 (* ---------------------------------------------------------------- observables of a trace *)
 Definition pull_len (c : option nat) (T : Z) (e : ev) : Z :=
   match e with
